@@ -29,9 +29,9 @@ PROP = {
                   "unparsable timestamps are outside the property's domain and not generated. Trusts the time "
                   "package for formatting/parsing RFC 3339 timestamps and the OS for regular-file reads.",
     "tests": [
-        ("TestVFC20FileReverse", (1000, 8000)),
-        ("TestVFC20FileSeek", (1000, 5000)),
-        ("TestVFC20Reader", (1500, 10000)),
+        ("TestVFC20FileReverse", (800, 6000)),
+        ("TestVFC20FileSeek", (500, 3000)),
+        ("TestVFC20Reader", (1000, 6000)),
     ],
     "plain": ["TestVFC20Regress"],
     "shards": (4, 16),
